@@ -45,7 +45,8 @@ def stim_word(st):
         return 'k'
     if op == 'close':
         return 'x'
-    return {'cancel': 'c', 'lose': 'l', 'goaway': 'g', 'pause': 'p', 'resume': 'u', 'answer': 'a'}[op] + str(st[1])
+    return {'cancel': 'c', 'lose': 'l', 'goaway': 'g', 'pause': 'p', 'resume': 'u', 'answer': 'a',
+            'hold': 'h'}[op] + str(st[1])
 
 
 def model_line(case):
@@ -228,6 +229,8 @@ def gen_case(rng, ka=None):
                 b.append(['goaway', conn_pick()])
             elif r < 0.80:
                 b.append(['close'])
+            elif r < 0.83:
+                b.append(['hold', conn_pick()])
             elif r < 0.86:
                 b.append(['pause', conn_pick()])
             elif r < 0.91:
@@ -243,6 +246,46 @@ def gen_case(rng, ka=None):
     return case
 
 
+def gen_close_window(rng):
+    """directed family: registered calls in flight on a connection whose transport withholds (or merely
+    delays) connection_lost; the connection is closed from one side (keepalive Connection.close(), GOAWAY,
+    Channel.close()) and THEN Channel.close() runs -- in the same loop iteration, a later one, or with
+    connection_lost never delivered before it.  Every in-flight registered call must be finished when
+    close() has run."""
+    ka = rng.random() < 0.6
+    n = rng.choice([1, 2, 3])
+    batches = [[S[:] for _ in range(n)], [R[:]]]
+    ncallers = n
+    if rng.random() < 0.3:
+        batches.append([['answer', rng.randrange(n)]])
+    withhold = rng.random() < 0.7
+    if withhold:
+        batches.append([['hold', 0]])
+    first = rng.choice(['kaclose', 'kaclose', 'goaway', 'close'] if ka else ['goaway', 'close'])
+    st1 = [first] if first != 'goaway' else ['goaway', 0]
+    extra = []
+    if rng.random() < 0.3:
+        extra = [S[:]]
+        ncallers += 1
+    shape = rng.random()
+    if shape < 0.4:
+        batches.append([st1] + extra + [['close']])          # same loop iteration
+    elif shape < 0.8:
+        batches.append([st1] + extra)
+        if rng.random() < 0.3:
+            batches.append([S[:]])
+            ncallers += 1
+        batches.append([['close']])                           # a later iteration
+    else:
+        batches.append([st1])
+        batches.append([['close'], ['close']])                # close -> close
+    if rng.random() < 0.5:
+        batches.append([['lose', 0]])
+    case = {'script': [], 'ka': ka, 'batches': batches}
+    add_epilogue(case, ncallers)
+    return case
+
+
 def add_epilogue(case, ncallers):
     """settle (resolve everything in flight), Channel.close(), then fresh calls: the channel must reconnect
     exactly once and serve them.  One more round per scripted failure that may still be unconsumed."""
@@ -251,6 +294,9 @@ def add_epilogue(case, ncallers):
     batches = case['batches']
     for _ in range(len(script) + 2):
         batches.append([R[:]])
+    # a withheld connection_lost is finally delivered (the harness must not hold it for ever)
+    nres = sum(1 for b in batches for st in b if st[0] in ('resolve', 'start'))
+    batches.append([['lose', c] for c in range(min(nres, 12))])
     at = len(batches)
     batches.append([['close']])
     rounds = nf + 1
@@ -343,8 +389,10 @@ def check_cases(ctx, res, cases):
 RULE = ('command-driven schedules on the real Channel: 1-6 initial callers (one batch or one per loop iteration), '
         'PRNG connect scripts (ok/fail x deferred/inline), then 2-14 batches of 1-3 stimuli applied back to back '
         'inside one loop iteration {start, resolve, answer k, cancel k, lose c, goaway c, close, pause c, resume c, '
-        'kaclose (real keepalive timer, 30% of cases)} with indices biased to the newest connection/caller and '
-        'sometimes out of range; epilogue: resolve all, Channel.close(), fresh calls; plus a timed oracle-only '
+        'kaclose (real keepalive timer, 30% of cases), hold c (the transport withholds connection_lost after close())} with indices biased to the newest connection/caller and '
+        'sometimes out of range; a directed family {keepalive close | GOAWAY | close} -> Channel.close() with '
+        'connection_lost withheld or delayed and registered calls in flight; epilogue: resolve all, deliver withheld '
+        'connection_lost, Channel.close(), fresh calls; plus a timed oracle-only '
         'family (asyncio.sleep attempts, quarter-second instants). distinct = distinct sequences of observation '
         'vectors (creates, in flight, _protocol, lock, waiters, _state, per-connection flags, per-call outcome)')
 
@@ -356,6 +404,8 @@ def run(ctx):
     cases = [c['case'] if 'case' in c and 'batches' not in c else c for c in ctx.corpus()]
     for _ in range(ctx.n(2500, 40000)):
         cases.append(gen_case(rng))
+    for _ in range(ctx.n(400, 6000)):
+        cases.append(gen_close_window(rng))
     for _ in range(ctx.n(300, 5000)):
         cases.append(gen_timed(rng))
     check_cases(ctx, res, cases)
